@@ -200,8 +200,10 @@ def setup_task_paths(paths_in, paths_out, allowed_input_suffixes):
                 raise ValueError(
                     f"Output path '{pp}' must not point to input file '{pi}'!")
 
-    [po.unlink() for po in paths_out if po.exists()]
-    [pt.unlink() for pt in paths_temp if pt.exists()]
+    # (`exists` follows symbolic links: also remove dangling links, through
+    # which we would otherwise write to wherever they point)
+    [po.unlink() for po in paths_out if po.exists() or po.is_symlink()]
+    [pt.unlink() for pt in paths_temp if pt.exists() or pt.is_symlink()]
 
     # convert lists back to paths
     if not list_in:
